@@ -275,6 +275,18 @@ func c19Exec(r *vf.Run, cfg c19Cfg, c *vf.Chooser) (keys, whats []string) {
 			add("successful-dialandsend-left-open", fmt.Sprintf("DialAndSend returned nil but the connection is still open; replies: %s", c.Describe(describeReplyChoice)))
 		}
 	}
+	if cfg.Redial && handed {
+		r.Outcome("reached/redial-judged")
+	}
+	if cfg.Ctx == 1 && handed {
+		r.Outcome("reached/context-cancelled-during-dial")
+	}
+	if cfg.Fallback && handed {
+		r.Outcome("reached/fallback-connection")
+	}
+	if opErr != nil && opened && closed {
+		r.Outcome("reached/closed-after-failure/tls=" + c19TLSNames[cfg.TLS])
+	}
 	if opErr == nil && !cfg.Send {
 		r.Outcome("dial-ok")
 		_ = cl.Close()
@@ -370,6 +382,8 @@ func init() {
 					}
 				})
 			})
+			r.Reached("reached/redial-judged", "reached/context-cancelled-during-dial", "reached/fallback-connection", "reached/closed-after-failure/tls=mandatory", "reached/closed-after-failure/tls=opportunistic",
+				"reached/closed-after-failure/tls=none", "reached/closed-after-failure/tls=implicit", "dial-ok", "dialandsend-ok")
 		},
 		Replay: func(r *vf.Run, kase json.RawMessage) {
 			var k c19Case
